@@ -3,9 +3,9 @@
      res.legs = legs without ax;  res.qtotal = make_valid(qtotal - legs[ax].get_charge(qi))
      keep_blocks = _qdata[:, ax] == qi;  res._qdata = _qdata[keep_blocks][:, keep_axes];  res._data = [block[..., ri, ...]]
      res._qdata_sorted is not changed.
-   Tie to the code: NONE by correspondence (harness/npc_gen.py records storage only for transpose/conj/scale/add/outer/tensordot);
-   the implementation of take_slice is checked by the numpy oracle of harness/c01.py and the invariant oracle of c02.py only.
-   The theorems about this file say what the ALGORITHM READ FROM THE SOURCE does. *)
+   Tie to the code: correspondence (K), second stream `coq2` of harness/c02.py (harness/npc_gen.py records the storage of operand and
+   result of one-axis take_slice calls; checker check_case_c02x of Model/TensorProgCheck.v compares legs, qtotal, _qdata rows in
+   order, the claim and the dense form); besides the numpy oracle of harness/c01.py and the invariant oracle of c02.py. *)
 From TenpyV Require Import Base.Prelude Model.Charge Model.Tensor Model.TensorOps.
 Open Scope Z_scope.
 
